@@ -44,7 +44,7 @@ CHECKS.update({
     'C11': dict(engine='enum', tech=ENUM_TECH, sec='4 C11', note='Trusted: the reference predicates (injective assignment by brute force; first-fit with either removal discipline for overlapping matchers).',
                 text='Every range over {1,2,3} up to length 4 (quick) / 5 (thorough) x every element list up to length 3 / 4 x the 8 range matchers x variadic and collection flavour x element families (plain values, eq, all_of(ge,le), overlapping gt) x containers (vector, list, deque, array, C array, initializer_list); all documented call forms must compile (both compilers).'),
     'C12': dict(engine='schedmc', tech=SCHED_TECH, sec='4 C12', note='Trusted: the scheduler (engines/schedmc/sched.c, uninstrumented, raw futex), ThreadSanitizer of clang 14 as the race oracle, the reference model with the atomic steps of appendix B. Scheduling granularity = outermost acquisitions of the library lock; sequentially consistent interleavings only.',
-                text='All 2x1 programs over 21 operations, 2x2 programs over 10 operations (quick) / 18 operations (thorough), 3x1 programs (thorough): every schedule at critical-section granularity, no preemption bound; 2x3 programs with at most 3 and 3x2 programs with at most 2 deviations from the default schedule (thorough); a free-running TSan pass with the library's own lock (cold starts); tracers constructed inside a call; TSan race reports, deadlock, crash (TSan and ASan+UBSan builds) and linearizability of all results.'),
+                text='All 2x1 programs over 21 operations, 2x2 programs over 10 operations (quick) / 18 operations (thorough), 3x1 programs (thorough): every schedule at critical-section granularity, no preemption bound; 2x3 programs with at most 3 and 3x2 programs with at most 2 deviations from the default schedule (thorough); a free-running TSan pass with the default lock of the library (cold starts); tracers constructed inside a call; TSan race reports, deadlock, crash (TSan and ASan+UBSan builds) and linearizability of all results.'),
     'C18': dict(engine='enum', tech=ENUM_TECH, sec='4 C18', note='Trusted: the reference formatter; libstdc++ stream semantics; sanitizer build (a null dereference is a crash of the harness, reported as a violation).',
                 text='Type family (opaque structs of 1..40 bytes x 3 byte patterns, integers of four widths, bool, char, strings, raw/smart/function pointers incl. null, null-comparable classes, printer<T> types, pairs, tuples of 0-3, vector/list/deque/set/map nested to depth 3 with nulls and custom printers at every depth) x 81 prior stream states of base x fill x width x adjustment plus 12 with showbase / uppercase / showpos / boolalpha for leaves (structures: those without pending width); null-comparable types with user printers; arguments as reference wrappers; texts of trace records and reports with null, const& and && parameters.'),
     'C20': dict(engine='enum', tech=ENUM_TECH.replace('bounded exhaustive exploration of a term / input space against a reference model', 'bounded exhaustive exploration of operation sequences against a reference model: every interleaving of call / resume / destroy steps of up to three coroutines per expectation shape, plus'), sec='4 C20',
